@@ -115,7 +115,14 @@ class C18(PropertyCheck):
                 if rng.random() < 0.3:
                     s = rng.choice(['aaaa', 'abababa', 'xaaay', 'llll', 'aaa', 'éaaé', 'lllll'])
                     na = True
-                if rng.random() < 0.5:
+                if rng.random() < 0.35 and nd != '':
+                    cnt = rng.choice([0, 1, 1, 2, 2, 3, 5])
+                    if rng.random() < 0.5:
+                        s, nd = rng.choice([('a:::b', '::'), ('aaaa', 'aa'), ('banana', 'ana'), ('x→→→y', '→→'), ('a::b::c', '::'), ('llll', 'll'), ('aaaaa', 'aa'), ('abababa', 'aba')])
+                        na = True
+                    e = '[' + ', '.join(pycps(p) for p in s.rsplit(nd, cnt)) + ']'
+                    add('rsplit', f'to_str(({q(s)}).rsplit({q(nd)}, {cnt}).map((p: str)->{{p{CPS}}}).to_array())', f'rlfs (x_rsplit ({cq(s)}) ({cq(nd)}) {cnt})', e, na)
+                elif rng.random() < 0.5:
                     e = '[' + ', '.join(pycps(p) for p in s.split(nd)) + ']'
                     add('split', f'to_str(({q(s)}).split({q(nd)}).map((p: str)->{{p{CPS}}}).to_array())', f'rlfs (x_split ({cq(s)}) ({cq(nd)}))', e, na)
                 else:
